@@ -65,10 +65,13 @@ pub struct QpLayout {
     /// comment lines in front so that a line ends exactly at a buffer boundary of the readers
     #[serde(default)]
     pub align: Option<super::align::Align>,
+    /// one comment line of this many KiB (longer than the readers' buffers: the "line does not fit" paths run)
+    #[serde(default)]
+    pub long_line_kb: u8,
 }
 impl QpLayout {
     pub fn plain() -> Self {
-        QpLayout { seed: 0, trailing_text: false, comment_lines: false, tab: false, numbers: 0, crlf: false, final_newline: true, trailing_lines: 0, word_case: 0, padding_kb: 0, align: None }
+        QpLayout { seed: 0, trailing_text: false, comment_lines: false, tab: false, numbers: 0, crlf: false, final_newline: true, trailing_lines: 0, word_case: 0, padding_kb: 0, align: None, long_line_kb: 0 }
     }
 }
 
@@ -339,6 +342,15 @@ impl QpModel {
                 lines.insert(pos, (l, LineKind::Noise));
             }
         }
+        if lay.long_line_kb > 0 {
+            let mut prng = Rng::new(lay.seed ^ 0x1046);
+            let mut l = String::from(*prng.pick(&["! ", "# ", "% "]));
+            for _ in 0..lay.long_line_kb as usize * 1024 {
+                l.push((b'!' + prng.below(90) as u8) as char);
+            }
+            let pos = prng.usize(lines.len() + 1);
+            lines.insert(pos, (l, LineKind::Noise));
+        }
         if let Some(a) = &lay.align {
             let nl_len = if lay.crlf { 2 } else { 1 };
             let lens: Vec<usize> = lines.iter().map(|l| l.0.len()).collect();
@@ -598,5 +610,6 @@ pub fn gen_layout(rng: &mut Rng) -> QpLayout {
         word_case: rng.below(3) as u8,
         padding_kb: 0,
         align: None,
+        long_line_kb: 0,
     }
 }
